@@ -30,9 +30,15 @@ class Response(object):
         status_line = next(lines, b'')
         tokens = iter(status_line.split(None, 2))
         self.http_ver = next(tokens, b'').decode('ascii', 'replace')
-        try:
-            self.status_code = int(next(tokens, b''))
-        except ValueError:
+        status_code = next(tokens, b'')
+        if (
+            self.http_ver.startswith('HTTP/')
+            and len(status_code) == 3
+            and status_code.isdigit()
+        ):
+            self.status_code = int(status_code)
+        else:
+            # Not a status line (int() would accept "+101" or "1_0_1")
             self.status_code = None
         self.status = next(tokens, b'').decode('ascii', 'replace')
 
